@@ -6,6 +6,7 @@ import (
 	"fmt"
 	"sort"
 	"testing"
+	"time"
 
 	"github.com/hashicorp/serf/serf"
 	"pgregory.net/rapid"
@@ -38,6 +39,10 @@ type c04Msg struct {
 	CC    bool   `json:"cc,omitempty"`
 	ID    uint32 `json:"id,omitempty"`
 	Flags int    `json:"f,omitempty"` // query: 0 none 1 ack 2 no-broadcast
+	// query: 0 no filter, 1 node list without this node, 2 node list with it,
+	// 3 tag pattern that does not match, 4 undecodable filter (a node the
+	// filters exclude still has to remember and re-broadcast the query once)
+	Filter int `json:"flt,omitempty"`
 }
 
 type c04Step struct {
@@ -84,6 +89,7 @@ func genC04(t *rapid.T) c04Case {
 				m.Name, m.Pay, m.CC = rapid.IntRange(0, 1).Draw(t, "name"), rapid.IntRange(0, 2).Draw(t, "pay"), rapid.Bool().Draw(t, "cc")
 			case 3:
 				m.Name, m.ID, m.Flags = rapid.IntRange(0, 1).Draw(t, "name"), uint32(rapid.IntRange(1, 3).Draw(t, "id")), rapid.SampledFrom([]int{0, 0, 1, 2}).Draw(t, "flags")
+				m.Filter = rapid.SampledFrom([]int{0, 0, 1, 1, 2, 3, 4}).Draw(t, "filter")
 			}
 		}
 		c.Msgs = append(c.Msgs, m)
@@ -139,7 +145,28 @@ func c04Encode(m c04Msg) []byte {
 		case 2:
 			fl = serf.VerifQueryFlagNoBroadcast
 		}
-		return encQuery(lt, m.ID, c05Names[m.Name%len(c05Names)], fl)
+		var filters [][]byte
+		switch m.Filter {
+		case 1:
+			f, _ := serf.VerifEncodeFilter(serf.VerifFilterNodeType, []string{"somebody-else", "another"})
+			filters = [][]byte{f}
+		case 2:
+			f, _ := serf.VerifEncodeFilter(serf.VerifFilterNodeType, []string{"somebody-else", c04Member[0]})
+			filters = [][]byte{f}
+		case 3:
+			f, _ := serf.VerifEncodeFilter(serf.VerifFilterTagType, &serf.VerifFilterTag{Tag: "role", Expr: "^never-matches$"})
+			filters = [][]byte{f}
+		case 4:
+			filters = [][]byte{{serf.VerifFilterNodeType, 0xc1, 0xff}}
+		}
+		b, err := serf.VerifEncodeMessage(serf.VerifMessageQueryType, &serf.VerifMessageQuery{
+			LTime: serf.LamportTime(lt), ID: m.ID, Addr: []byte{127, 0, 9, 9}, Port: 7946, SourceNode: "origin",
+			Filters: filters, Flags: fl, Timeout: time.Second, Name: c05Names[m.Name%len(c05Names)], Payload: []byte("q"),
+		}, false)
+		if err != nil {
+			panic(err)
+		}
+		return b
 	}
 }
 
